@@ -68,14 +68,19 @@ def run(ctx, replay_case):
                         if t == "list[BYTE]":
                             skip_parent = path
                         en.append((t, last))
-                    # parents of non-byte lists are shown when the list is empty (or when they directly follow a byte buffer):
-                    # they are not structure/primitive events, so they are left out of the one-to-one comparison
-                    def nolist(seq):
-                        return [(t, last) for t, last in seq if not (t.startswith("list[") and t != "list[BYTE]")]
-                    pn, en2 = nolist(pn), nolist(en)
-                    if pn != en2:
-                        k = next((j for j, (x, y) in enumerate(zip(pn, en2)) if x != y), min(len(pn), len(en2)))
-                        problem = f"rows and events do not correspond one to one in order (row {k}: {pn[k] if k < len(pn) else 'end'} vs event {en2[k] if k < len(en2) else 'end'})"
+                    # the events of non-byte lists themselves are neither structure nor primitive events: their row is optional
+                    # (the printer shows it for empty lists), but when there is one it stands at the list event's place in event order
+                    def islist(t):
+                        return t.startswith("list[") and t != "list[BYTE]"
+                    k = 0
+                    for j, ev in enumerate(en):
+                        if k < len(pn) and pn[k] == ev:
+                            k += 1
+                        elif not islist(ev[0]):
+                            problem = f"rows and events do not correspond one to one in order (row {k}: {pn[k] if k < len(pn) else 'end'} vs event {j}: {ev})"
+                            break
+                    if problem is None and k < len(pn):
+                        problem = f"rows and events do not correspond one to one in order (row {k}: {pn[k]} has no event at its place)"
         stats["violation" if problem else "ok"] += 1
         if problem and len([v for v in ctx.violations if v.get("signature") == "print:" + problem.split(":")[0][:30]]) < 2:
             ctx.violations.append({"kind": "concrete", "signature": "print:" + problem.split(":")[0][:30], "what": problem,
